@@ -277,6 +277,7 @@ SHARE_OPS = {
     "filter": lambda x: x.filter(lambda i: True), "sort": lambda x: x.sort(a=1), "head": lambda x: x.head(2),
     "copy": lambda x: x.copy(), "reverse": lambda x: x.reverse(), "slice": lambda x: x[:], "tail": lambda x: x.tail(1),
     "unique": lambda x: x.unique("a"), "filter_out": lambda x: x.filter_out(a=99),
+    "filter_none": lambda x: x.filter(lambda i: False), "append": lambda x: x.append({"a": 5, "b": 5}),
 }
 EDIT_OPS = {
     "modify": lambda x: x.modify(c=lambda i: 7), "unselect": lambda x: x.unselect("b"),
@@ -331,9 +332,9 @@ def run_history(h):
 @driver("dataiter/list_of_dicts.py::ListOfDicts._mark_obsolete")
 def history_driver(run):
     depth = 4 if run.tier == "thorough" else 3
-    ops = ["filter", "sort", "copy", "slice", "deepcopy", "modify", "unselect", "select"]
+    ops = ["filter", "sort", "copy", "deepcopy", "modify", "unselect", "select", "filter_none", "append"]
     if run.tier == "thorough":
-        ops += ["head", "reverse", "fill", "modify_if"]
+        ops += ["head", "reverse", "fill", "modify_if", "slice"]
     run.bound = f"all derivation histories of <= {depth} calls over {len(ops)} methods from one 2-item list"
     for (h,) in run.inputs(((h,) for h in histories(depth, ops))):
         h = [tuple(x) for x in h]
@@ -403,3 +404,72 @@ def second_operand_driver(name, op):
 if __import__("os").environ.get("PYVC_PROP") == "C17":
     second_operand_driver("dataiter/list_of_dicts.py::ListOfDicts.__add__", lambda a, b: a + b)
     second_operand_driver("dataiter/list_of_dicts.py::ListOfDicts.extend[ListOfDicts argument]", lambda a, b: a.extend(b))
+
+
+# ---- C15: chains of methods against a plain list-of-dicts model ---------------------------------------
+def _m_sort(l, **kd):
+    return sort_oracle(l, list(kd.items()))
+
+
+CHAIN_OPS = {
+    "sort_a": (lambda x: x.sort(a=1), lambda l: _m_sort(l, a=1)),
+    "sort_a_desc": (lambda x: x.sort(a=-1), lambda l: _m_sort(l, a=-1)),
+    "sort_ab": (lambda x: x.sort(a=1, b=-1), lambda l: _m_sort(l, a=1, b=-1)),
+    "reverse": (lambda x: x.reverse(), lambda l: l[::-1]),
+    "append": (lambda x: x.append({"a": 0, "b": None}), lambda l: l + [{"a": 0, "b": None}]),
+    "insert_neg": (lambda x: x.insert(-2, {"a": 1, "b": 1}), lambda l: (l.insert(-2, {"a": 1, "b": 1}), l)[1]),
+    "head2": (lambda x: x.head(2), lambda l: l[:2]),
+    "tail1": (lambda x: x.tail(1), lambda l: l[len(l) - min(1, len(l)):]),
+    "filter_a": (lambda x: x.filter(a=1), lambda l: [i for i in l if i["a"] == 1]),
+    "filter_out_ab": (lambda x: x.filter_out(a=1, b=0), lambda l: [i for i in l if not (i["a"] == 1 and i["b"] == 0)]),
+    "unique_a": (lambda x: x.unique("a"), lambda l: [x for i, x in enumerate(l) if not any(y["a"] == x["a"] for y in l[:i])]),
+    "add_copy": (lambda x: x + x.deepcopy(), lambda l: l + copy.deepcopy(l)),
+    "modify_a": (lambda x: x.modify(a=lambda i: 1 if i.a is None else None), lambda l: [{**i, "a": (1 if i["a"] is None else None)} for i in l]),
+    "slice": (lambda x: x[1:], lambda l: l[1:]),
+}
+
+
+@driver("dataiter/list_of_dicts.py::ListOfDicts.sort[one key ascending]")
+def chain_driver(run):
+    import itertools as it_
+    depth = 3
+    starts = [[], [{"a": 1, "b": 0}], [{"a": 1, "b": 0}, {"a": None, "b": 1}, {"a": 0, "b": 0}], [{"a": 0, "b": 1}, {"a": 0, "b": 0}, {"a": 1, "b": 0}]]
+    ops = list(CHAIN_OPS) if run.tier == "thorough" else [o for o in CHAIN_OPS if o not in ("add_copy", "slice", "tail1")]
+    run.bound = f"all chains of <= {depth} methods ({len(ops)} kinds) from {len(starts)} start lists; also every single sort on full lists of <= 3 items"
+    for (l,) in run.inputs(((l,) for l in full_lists(3))):
+        if run.replay is not None and not (isinstance(l, list) and all(isinstance(x, dict) for x in l)):
+            break
+        data = mk(l)
+        run.check([l], plain(data.sort(a=1)) == sort_oracle(l, [("a", 1)]), expected=sort_oracle(l, [("a", 1)]), got=plain(data.sort(a=1)), clause="sort")
+    gen = ((s, list(seq)) for s in range(len(starts)) for n in range(1, depth + 1) for seq in it_.product(ops, repeat=n))
+    for inp in run.inputs(gen):
+        if not (isinstance(inp, (list, tuple)) and len(inp) == 2 and isinstance(inp[0], int)):
+            continue
+        s, seq = inp
+        x, model = mk(starts[s]), copy.deepcopy(starts[s])
+        import contextlib, io
+        try:
+            with contextlib.redirect_stdout(io.StringIO()):
+                for op in seq:
+                    x = CHAIN_OPS[op][0](x)
+                    model = CHAIN_OPS[op][1](model)
+            ok, got = plain(x) == model and isinstance(x, ListOfDicts), plain(x)
+        except Exception as e:
+            ok, got = False, f"raised {type(e).__name__}: {e}"
+        run.check([s, seq], ok, expected=model, got=got, clause="chain of methods == plain list semantics")
+
+
+@driver("dataiter/list_of_dicts.py::ListOfDicts.sort[ragged items: KeyError or sorted, never modified]")
+def ragged_sort_driver(run):
+    run.bound = B(run) + " (ragged: keys may be missing) - sort either raises KeyError or is correct; items never change"
+    for (l,) in run.inputs(((l,) for l in lists(maxlen(run)))):
+        data = mk(l)
+        before = plain(data)
+        try:
+            got = plain(data.sort(a=-1))
+            ok = all("a" in x for x in l) and got == sort_oracle(l, [("a", -1)])
+        except KeyError:
+            ok, got = not all("a" in x for x in l), "KeyError"
+        except TypeError:
+            ok, got = True, "TypeError (incomparable)"
+        run.check([l], ok and plain(data) == before, expected="sorted or KeyError; items unchanged", got=[got, plain(data)], clause="sort is non-modifying")
